@@ -452,14 +452,14 @@ PROPERTIES["C01"]["runs"] += [
 ]
 PROPERTIES["C01"]["explanation"] += (" P01L adds one structured statement before or after a base statement (thorough: also two structured statements): a counted loop with an opaque bound, condition loops on x (a body that does not change the "
     "condition diverges), tagless and tagged switches on x == nil with two arms, and calls of pointer-receiver methods that dereference or check their receiver.")
-PROPERTIES["C01"]["bounds"]["quick"] += "; P01L: 1660 programs (one structured statement - 3 loop forms, 4 switch forms incl. compound case conditions, 2 guards hoisted above loops, 2 guards combined with another condition, 4 receiver forms over 5 straight-line bodies - next to one of 7 base statements or a nil-checked dereference that returns, in 3 spellings)"
+PROPERTIES["C01"]["bounds"]["quick"] += "; P01L: 2160 programs (one structured statement - 4 loop forms incl. a two-statement body, 4 switch forms incl. compound case conditions, 2 guards hoisted above loops, 2 guards combined with another condition, 4 receiver forms over 5 straight-line bodies - next to one of 7 base statements or a nil-checked dereference that returns, in 3 spellings)"
 PROPERTIES["C01"]["bounds"]["thorough"] += "; P01L: all programs with one structured statement over 9 straight-line bodies; all pairs of structured statements over 5 bodies"
 PROPERTIES["C01"]["outside"] = [o.replace("loops, switches, methods, struct fields", "nested loops, loops around compound statements, struct fields") for o in PROPERTIES["C01"]["outside"]]
 PROPERTIES["C02"]["runs"] += [
     dict(pkg="accumulation", files=PIPE_FILES, entry="Harness_P01L", name="_guards", quick=dict(params=dict(SIMPLE=5, COMPOUND=2, ORDERS=4)), thorough=dict(params=dict(SIMPLE=9, COMPOUND=4, ORDERS=4)),
          args=dict(sample_every=197, max_samples=12)),
 ]
-PROPERTIES["C02"]["bounds"]["quick"] += " and the 1660 P01L programs (loops, switch-on-nil incl. compound case conditions, guards hoisted above loops, conjunctions/disjunctions, receivers, guarded dereferences that return)"
+PROPERTIES["C02"]["bounds"]["quick"] += " and the 2160 P01L programs (loops, switch-on-nil incl. compound case conditions, guards hoisted above loops, conjunctions/disjunctions, receivers, guarded dereferences that return)"
 
 PROPERTIES["C08"]["runs"] += [
     dict(pkg="accumulation", files=PIPE_FILES, entry="Harness_P08_Ok", args=dict(sample_every=23, max_samples=16)),
